@@ -339,6 +339,6 @@ func GenLimCfg(r *Rng, kind int) LimCfg {
 	c.MaxW = c.MinW * r.Pick(1, 1, 2, 10)
 	c.Thr = r.Pick(0, 0, 1000, 100_000, 1_000_000)
 	c.WSize = r.Pick(10, 10, 11, 12, 15)
-	c.Est0 = r.Pick(1, 2, 3, 5, 10, 20)
+	c.Est0 = r.Pick(1, 2, 3, 5, 10, 20, 0, -2) // a limit may report 0 or a negative estimate from the start: the strategy then enforces 1
 	return c
 }
